@@ -9,9 +9,21 @@ import (
 
 type eng struct{ t *testing.T }
 
-func (e eng) Generate(seed uint64, prop, tier string) any { return Generate(seed, prop, tier) }
+func (e eng) Generate(seed uint64, prop, tier string) any {
+	if prop == "C18" {
+		if seed%4 == 3 {
+			return GenerateC18Random(seed, tier)
+		}
+		return GenerateC18(seed, tier)
+	}
+	return Generate(seed, prop, tier)
+}
 func (e eng) Execute(plan any, prop string) runner.Outcome {
-	return Execute(e.t, plan.(*Plan), prop)
+	p := plan.(*Plan)
+	if p.Enum {
+		return enumerate(e.t, p, prop)
+	}
+	return Execute(e.t, p, prop)
 }
 func (e eng) Shrink(plan any) []any { return Shrink(plan.(*Plan)) }
 func (e eng) Decode(raw json.RawMessage) (any, error) {
